@@ -445,21 +445,48 @@ def step(ctx, op, pool, a, b, plan, pe):
             if what == "dup_names":
                 pe.Obs([x, x], ["A|r1", "A|r1"])
             elif what == "nonstring_name":
-                pe.Obs([x], [rr.choice([1, 2.5, None, ("A",)])]) if rr.random() < 0.5 else pe.Obs([x, x], ["A|r1", 5])
+                v = rr.randrange(4)
+                if v == 0:
+                    pe.Obs([x], [rr.choice([1, 2.5, None, ("A",), np.int64(3), b"A|r1"])])
+                elif v == 1:
+                    pe.Obs([x, x], ["A|r1", rr.choice([5, np.int64(2), None, b"A|r2"])])
+                elif v == 2:
+                    pe.Obs([x, x, x], [rr.choice([7, None]), "A|r1", "A|r2"])
+                else:
+                    pe.Obs([x, x], [np.str_("A|r1"), 3.5])
             elif what == "unsorted_idl":
-                idl = list(range(1, n + 1))
-                k = rr.randrange(n - 1)
-                idl[k], idl[k + 1] = idl[k + 1], idl[k]
+                v = rr.randrange(5)
+                if v == 0:
+                    idl = list(range(1, n + 1))
+                    k = rr.randrange(n - 1)
+                    idl[k], idl[k + 1] = idl[k + 1], idl[k]
+                elif v == 1:
+                    idl = list(range(2 * n, 0, -2))              # equally spaced but decreasing
+                elif v == 2:
+                    idl = np.arange(n, 0, -1)                    # the same as a NumPy array
+                elif v == 3:
+                    idl = sorted(rr.sample(range(1, 4 * n), n))  # irregular, last two swapped
+                    idl[-1], idl[-2] = idl[-2], idl[-1]
+                else:
+                    idl = list(range(1, n)) + [0]                # only the last entry out of order
                 pe.Obs([x], ["A|r1"], idl=[idl])
             elif what == "dup_idl":
-                idl = list(range(1, n + 1))
-                k = rr.randrange(n - 1)
+                v = rr.randrange(4)
+                idl = list(range(1, n + 1)) if v < 2 else sorted(rr.sample(range(1, 4 * n), n))
+                k = rr.randrange(n - 1) if v % 2 == 0 else n - 2     # somewhere / at the very end
                 idl[k + 1] = idl[k]
+                if v == 3:
+                    idl = np.array(idl)
+                if rr.random() < 0.15:
+                    idl = [7] * n                                     # all equal
                 pe.Obs([x], ["A|r1"], idl=[idl])
             elif what == "length_mismatch":
                 pe.Obs([x], ["A|r1"], idl=[range(1, n + rr.choice([0, 2, 3]))]) if rr.random() < 0.5 else pe.Obs([x], ["A|r1"], idl=[list(range(1, n))])
             elif what == "few_samples":
-                pe.Obs([x[:rr.randint(0, 4)]], ["A|r1"])
+                if rr.random() < 0.5:
+                    pe.Obs([x[:rr.randint(0, 4)]], ["A|r1"])
+                else:
+                    pe.Obs([x, x[:rr.randint(1, 4)]], ["A|r1", "A|r2"])        # only one replica too short
             elif what == "several_ensembles":
                 pair = rr.choice([["A|r1", "B|r1"], ["A", "A2"], ["A|r1", "A2|r1"], ["N200|r1", "N200b|r1"], ["ens|r1", "ens_b|r2"], ["B", "A"], ["A2", "A"],
                                   ["A|r1", "A|r2", "Ab|r1"], ["x|1", "xy|1"]])
@@ -471,9 +498,20 @@ def step(ctx, op, pool, a, b, plan, pe):
             elif what == "cov_name_sep":
                 pe.cov_Obs(1.0, 0.1, "cov|r1")
             elif what == "cov_asymmetric":
-                pe.cov_Obs([1.0, 2.0], np.array([[1.0, 0.3], [0.1, 1.0]]), "covM")
+                kw = {"grad": rr.choice([[1.0, 0.0], [0.5, 0.5], np.array([0.0, 2.0])])} if rr.random() < 0.5 else {}
+                if rr.random() < 0.5:
+                    pe.cov_Obs([1.0, 2.0], np.array([[1.0, 0.3], [0.1, 1.0]]), "covM", **kw)
+                else:
+                    pe.cov_Obs([1.0, 2.0, 3.0], np.array([[1.0, 0.0, 0.2], [0.0, 1.0, 0.0], [0.1, 0.0, 1.0]]), "covM", **({"grad": [1.0, 0.0, 0.0]} if kw else {}))
             elif what == "cov_indefinite":
-                pe.cov_Obs([1.0, 2.0], np.array([[1.0, 2.0], [2.0, 1.0]]), "covM")
+                kw = {"grad": rr.choice([[1.0, 0.0], [0.5, 0.5]])} if rr.random() < 0.5 else {}
+                v = rr.randrange(3)
+                if v == 0:
+                    pe.cov_Obs([1.0, 2.0], np.array([[1.0, 2.0], [2.0, 1.0]]), "covM", **kw)
+                elif v == 1:
+                    pe.cov_Obs([1.0, 2.0], [0.5, -0.1], "covM", **kw)                  # negative entry in a 1d list of variances
+                else:
+                    pe.cov_Obs(1.0, -0.3, "covM", **({"grad": [1.0]} if kw else {}))    # negative variance
             elif what == "names_len":
                 pe.Obs([x, x], ["A|r1"])
             elif what == "idl_len":
